@@ -239,6 +239,9 @@ def run_case(case):
         kw["scaling_within_bounds"] = True
     if cfg.get("maxfun"):
         kw["maxfun"] = cfg["maxfun"]
+    if cfg.get("lower") is not None and not cfg.get("scaling"):
+        # keep the call valid: the default rhobeg = 0.1*max(|x0|,1) can exceed half the narrowest gap of a box far from the origin
+        kw["rhobeg"] = float(min(0.1 * max(float(np.max(np.abs(x0))), 1.0), 0.45 * float(np.min(hi - lo))))
     ctx = engine.Ctx()
     tab = campaign.PointTable(ctx)
     hookv = []
@@ -277,6 +280,9 @@ def run_case(case):
                              known=classify("exception", cfg, np.inf, 0, None)))
         return res
     s = run.soln
+    if s.flag == s.EXIT_INPUT_ERROR:
+        res["inconclusive"].append("generated instance was rejected as invalid input: %s" % s.msg)
+        return res
     res["viol"].extend(passv)
     res["viol"].extend(hookv)
     if counts["h"] < 1 or counts["prox"] < 1:
